@@ -8,6 +8,8 @@ import OmplModel.Proofs.LBKPIECE1
 import OmplModel.Proofs.LBKPIECE1Path
 import OmplModel.Proofs.LBKPIECE1Forest
 import OmplModel.Proofs.GridN
+import OmplModel.Proofs.GridSplit
+import OmplModel.Proofs.GridFresh
 /-!
 # C13 — grid discretizations track cells, neighbours, borders and components exactly
 
@@ -635,5 +637,236 @@ example : ((GridN.run cfgN (opsN.take 9)).cells.map (fun c => (c.coord, c.nbrs, 
     some ([0, 0], 4, false) := by decide
 
 end PlainGridN
+
+/-! ## GridB with the split protocol (createCell … add | remove-without-add), round 10
+
+Model `OmplModel.GridS` (Model/GridSplit.lean): `createCell` runs the whole neighbour loop of `GridB::createCell` (counter,
+border flip, update event, heap update or migration of every adjacent cell) and returns a cell that is in neither the hash
+table nor a heap; `add` is `GridB::add`; `abandon` is `GridB::remove` AS CODED on the never-added cell (+ `destroyCell`).
+Inside the window `update`/`updateAll` are allowed; `createCell` of a second cell, `remove` of a grid cell and `clear` are
+not.  The fused steps `new`/`rm`/`clear` of the first section are part of the alphabet, so "every history" here contains
+every history there. -/
+section SplitGridB
+open OmplModel.GridS
+
+/-- **lookups find exactly the cells present, for every history**: the coordinates in `hash_` are -- in insertion order --
+exactly those the abstract history `specRun` leaves (created and added, not removed since, not cleared), none twice; the
+pending cell is the one created and neither added nor given back; `has` answers membership in that abstract set. -/
+theorem gridB_split_cells_exact (cfg : Cfg) (ops : List GridS.Op) (hv : ∀ op ∈ ops, op.valid cfg.dim) :
+    let s := GridS.run cfg ops
+    s.g.cells.map (·.coord) = (specRun ops).1 ∧ s.pending.map (·.coord) = (specRun ops).2 ∧
+    ((specRun ops).1).Nodup ∧ (∀ x, has s.g.cells x = true ↔ x ∈ (specRun ops).1) ∧
+    (∀ y, (specRun ops).2 = some y → y ∉ (specRun ops).1) := by
+  intro s
+  obtain ⟨h1, h2⟩ := run_coords (cfg := cfg) ops hv
+  have hi : InvS cfg s := run_invS ops hv
+  have hb : Base cfg s.g ∧ ∀ p, s.pending = some p → has s.g.cells p.coord = false := by
+    unfold InvS at hi
+    split at hi
+    · rename_i hp; exact ⟨hi.toBase, fun p h => by rw [hp] at h; cases h⟩
+    · rename_i p hp; exact ⟨hi.toBase, fun q h => by rw [hp] at h; cases h; exact hi.pabs⟩
+  refine ⟨h1, h2, by rw [← h1]; exact hb.1.nodup, fun x => by rw [← h1, has_eq_decide_mem]; simp only [decide_eq_true_eq]; exact Iff.rfl, ?_⟩
+  intro y hy
+  rw [← h2] at hy
+  cases hp : s.pending with
+  | none => rw [hp] at hy; cases hy
+  | some p =>
+    rw [hp] at hy
+    have : p.coord = y := by simpa using hy
+    have := this ▸ hb.2 p hp
+    rw [← h1]
+    rw [has_eq_decide_mem] at this
+    simpa using this
+
+/-- the counter contribution of the pending cell: 1 for the cells one step away from it -/
+def pendS (cfg : Cfg) (s : GridS) (x : Coord) : Nat :=
+  match s.pending with
+  | some p => if p.coord ∈ neighborCoords cfg.dim x then 1 else 0
+  | none => 0
+
+/-- **GridNInv ∧ GridBInv after every split history**: distinct coordinates of the right length; each cell of the grid in
+exactly one queue, external iff border, with its current key; each counter = present cells one step away + boundary
+dimensions + (1 if the created-not-yet-added cell is one step away), border iff counter < limit; the pending cell is in
+NEITHER queue (its id is no cell's id, and the queues hold exactly the cells' ids), absent from `hash_`, and carries
+exactly the count and flag `add` will file it under.  With no cell pending this is the invariant of the fused protocol. -/
+theorem gridB_split_inv (cfg : Cfg) (ops : List GridS.Op) (hv : ∀ op ∈ ops, op.valid cfg.dim) :
+    let s := GridS.run cfg ops
+    WF cfg.dim s.g.cells ∧
+    (qids s.g.external ++ qids s.g.internal).Perm (s.g.cells.map (·.id)) ∧ (s.g.cells.map (·.id)).Nodup ∧
+    (∀ c ∈ s.g.cells, (c.id ∈ qids s.g.external ↔ c.border = true) ∧ (c.id ∈ qids s.g.internal ↔ c.border = false)) ∧
+    s.g.external.items.Perm (side (·.border) s.g.cells) ∧ s.g.internal.items.Perm (side (fun c => !c.border) s.g.cells) ∧
+    (∀ c ∈ s.g.cells,
+      c.nbrs = (neighbors cfg.dim s.g.cells c.coord).length + boundaryDims cfg c.coord + pendS cfg s c.coord ∧
+      (c.border = true ↔ c.nbrs < cfg.limit)) ∧
+    (∀ p, s.pending = some p → has s.g.cells p.coord = false ∧ p.coord.length = cfg.dim ∧
+      p.id ∉ s.g.cells.map (·.id) ∧ p.id ∉ qids s.g.external ++ qids s.g.internal ∧
+      p.nbrs = (neighbors cfg.dim s.g.cells p.coord).length + boundaryDims cfg p.coord ∧
+      (p.border = true ↔ p.nbrs < cfg.limit)) := by
+  intro s
+  have hi : InvS cfg s := run_invS ops hv
+  unfold InvS at hi
+  split at hi
+  · rename_i hp
+    have hb := hi.toBase
+    refine ⟨⟨hb.nodup, hb.len⟩, hb.queues_perm, hb.idnd, fun c hc => ⟨hb.ext_iff_border hc, hb.int_iff_interior hc⟩,
+      hb.ext, hb.int, ?_, fun p h => by rw [hp] at h; cases h⟩
+    intro c hc
+    refine ⟨by simp only [pendS, hp, hi.count c hc, cnt_eq_neighbors, Nat.add_zero], ?_⟩
+    rw [hb.border c hc]; simp
+  · rename_i p hp
+    have hb := hi.toBase
+    refine ⟨⟨hb.nodup, hb.len⟩, hb.queues_perm, hb.idnd, fun c hc => ⟨hb.ext_iff_border hc, hb.int_iff_interior hc⟩,
+      hb.ext, hb.int, ?_, ?_⟩
+    · intro c hc
+      refine ⟨by simp only [pendS, hp, hi.count c hc, cnt_eq_neighbors], ?_⟩
+      rw [hb.border c hc]; simp
+    · intro q hq
+      rw [hp] at hq; cases hq
+      have hid : p.id ∉ s.g.cells.map (·.id) := by
+        intro hm
+        obtain ⟨c, hc, he⟩ := List.mem_map.1 hm
+        have := hb.idlt c hc
+        rw [he, hi.pid] at this
+        omega
+      refine ⟨hi.pabs, hi.plen, hid, fun hm => hid (hb.queues_perm.mem_iff.1 hm), by rw [hi.pcount, cnt_eq_neighbors], ?_⟩
+      rw [hi.pborder]; simp
+
+/-- `GridB::remove` on the created-but-never-added cell answers `false` ("not in the grid") after having undone
+`createCell`'s neighbour loop: the next state satisfies the no-pending invariant (previous theorem on `ops ++ [abandon]`)
+with the same cells in `hash_`. -/
+theorem gridB_split_abandon_false (cfg : Cfg) (ops : List GridS.Op) (hv : ∀ op ∈ ops, op.valid cfg.dim) (p : Cell)
+    (hp : (GridS.run cfg ops).pending = some p) :
+    (GridS.abandon cfg (GridS.run cfg ops).g p).2 = false ∧
+    (GridS.abandon cfg (GridS.run cfg ops).g p).1.cells.map (·.coord) = (GridS.run cfg ops).g.cells.map (·.coord) ∧
+    (GridS.run cfg (ops ++ [.abandon])).pending = none := by
+  have hi : InvS cfg (GridS.run cfg ops) := run_invS ops hv
+  unfold InvS at hi
+  rw [hp] at hi
+  have h := abandon_inv (show InvP cfg (GridS.run cfg ops).g p from hi)
+  refine ⟨h.2.1, h.2.2, ?_⟩
+  unfold GridS.run
+  rw [List.foldl_append]
+  show (GridS.step cfg (GridS.run cfg ops) .abandon).pending = none
+  unfold GridS.step
+  rw [hp]
+
+/-- **create … remove-without-add is an exact undo** (the clause seeded change C13-s4 broke for plain GridN, here for
+GridB): after `createCell(x)` followed by `remove` + `destroyCell` of that cell -- with `update`/`updateAll` calls in
+between -- the grid holds the same coordinates and every cell has the counter and the border flag it had before. -/
+theorem gridB_split_create_abandon_restores (cfg : Cfg) (ops : List GridS.Op) (hv : ∀ op ∈ ops, op.valid cfg.dim)
+    (x : Coord) (d : Int) (hx : x.length = cfg.dim) (mid : List GridS.Op)
+    (hmid : ∀ op ∈ mid, (∃ y e, op = .upd y e) ∨ (∃ chg, op = .updAll chg))
+    (hnone : (GridS.run cfg ops).pending = none) :
+    let s := GridS.run cfg ops
+    let s' := GridS.run cfg (ops ++ [.create x d] ++ mid ++ [.abandon])
+    s'.pending = none ∧ s'.g.cells.map (·.coord) = s.g.cells.map (·.coord) ∧
+    ∀ c ∈ s.g.cells, ∀ c' ∈ s'.g.cells, c'.coord = c.coord → c'.nbrs = c.nbrs ∧ c'.border = c.border := by
+  intro s s'
+  have hv' : ∀ op ∈ ops ++ [GridS.Op.create x d] ++ mid ++ [.abandon], op.valid cfg.dim := by
+    intro op ho
+    simp only [List.mem_append, List.mem_cons, List.not_mem_nil, or_false] at ho
+    rcases ho with ((ho | rfl) | ho) | rfl
+    · exact hv op ho
+    · exact hx
+    · rcases hmid op ho with ⟨y, e, rfl⟩ | ⟨chg, rfl⟩ <;> trivial
+    · trivial
+  obtain ⟨a1, a2⟩ := run_coords (cfg := cfg) ops hv
+  obtain ⟨b1, b2⟩ := run_coords (cfg := cfg) _ hv'
+  -- the abstract history: `mid` changes nothing, `abandon` drops the pending coordinate
+  have hspec : specRun (ops ++ [GridS.Op.create x d] ++ mid ++ [.abandon]) = ((specRun ops).1, none) := by
+    have hmidspec : ∀ (mid : List GridS.Op) (sp : List Coord × Option Coord),
+        (∀ op ∈ mid, (∃ y e, op = GridS.Op.upd y e) ∨ (∃ chg, op = GridS.Op.updAll chg)) → mid.foldl spec sp = sp := by
+      intro mid
+      induction mid with
+      | nil => intro sp _; rfl
+      | cons o mid ih =>
+        intro sp h
+        rw [List.foldl_cons]
+        have : spec sp o = sp := by
+          rcases h o List.mem_cons_self with ⟨y, e, rfl⟩ | ⟨chg, rfl⟩ <;> (obtain ⟨P, q⟩ := sp; cases q <;> rfl)
+        rw [this]
+        exact ih sp (fun o' ho' => h o' (List.mem_cons_of_mem _ ho'))
+    unfold specRun
+    rw [List.foldl_append, List.foldl_append, List.foldl_append, hmidspec mid _ hmid]
+    have hq : (List.foldl spec ([], none) ops).2 = none := by
+      have := a2; unfold specRun at this; rw [← this, hnone]; rfl
+    generalize List.foldl spec ([], none) ops = sp at hq ⊢
+    obtain ⟨P, q⟩ := sp
+    simp only at hq
+    subst hq
+    show spec (spec (P, none) (.create x d)) .abandon = (P, none)
+    show spec (if P.contains x then (P, none) else (P, some x)) .abandon = (P, none)
+    split <;> rfl
+  rw [hspec] at b1 b2
+  have hpend : s'.pending = none := by
+    cases h : s'.pending with
+    | none => rfl
+    | some q => rw [h] at b2; cases b2
+  refine ⟨hpend, b1.trans a1.symm, ?_⟩
+  have hi : InvS cfg s := run_invS ops hv
+  have hi' : InvS cfg s' := run_invS _ hv'
+  unfold InvS at hi hi'
+  rw [hnone] at hi
+  rw [hpend] at hi'
+  intro c hc c' hc' hcc
+  have e1 : c'.nbrs = c.nbrs := by
+    rw [hi'.count c' hc', hi.count c hc, hcc]
+    exact cnt_congr (b1.trans a1.symm) _
+  exact ⟨e1, by rw [hi'.border c' hc', hi.border c hc, e1]⟩
+
+/-- the tops are the best cells of the GRID after every split history, also inside the create…add window (the pending
+cell is in no queue and cannot be returned) -/
+theorem gridB_split_tops_best (cfg : Cfg) (ok : CmpOK cfg) (ops : List GridS.Op) (hv : ∀ op ∈ ops, op.valid cfg.dim) :
+    TopsBest cfg (GridS.run cfg ops).g := by
+  have hi : InvS cfg (GridS.run cfg ops) := run_invS ops hv
+  have hb : Base cfg (GridS.run cfg ops).g := by
+    unfold InvS at hi
+    split at hi
+    · exact hi.toBase
+    · exact hi.toBase
+  exact tops_best_of_base ok hb (run_orderedS ok ops)
+
+/-- the fused protocol of the first section (and of `Discretization::addMotion`: createCell, data, add) is the split
+protocol with every `new` replayed as `create` then `add`: same state, field by field (heap arrays included) -/
+theorem gridB_split_refines (cfg : Cfg) (ops : List Grid.Op) :
+    GridS.run cfg (ops.flatMap ofOp) = { g := Grid.run cfg ops, pending := none } :=
+  run_ofOp cfg ops
+
+/-! non-vacuity on `cfg0` (2-D, bounds [0,1]², limit 3): the corner cell [0,0] (2 boundary dimensions) is a border cell;
+while [0,1] is pending it counts 3 and sits in the internal queue; giving [0,1] back moves it to the external queue
+again; creating and adding it makes both interior. -/
+def opsS : List GridS.Op :=
+  [.new [0, 0] 5, .create [0, 1] 7, .upd [0, 0] 9, .abandon, .create [0, 1] 7, .updAll [([0, 0], 4)], .add]
+example : ∀ op ∈ opsS, op.valid cfg0.dim := by simp [opsS, GridS.Op.valid, cfg0]
+example : specRun opsS = ([[0, 0], [0, 1]], none) ∧ specRun (opsS.take 2) = ([[0, 0]], some [0, 1]) := by decide
+example : ((GridS.run cfg0 (opsS.take 3)).g.cells.map (fun c => (c.coord, c.nbrs, c.border, c.data))) = [([0, 0], 3, false, 9)] ∧
+    ((GridS.run cfg0 (opsS.take 3)).pending.map (fun c => (c.coord, c.nbrs, c.border))) = some ([0, 1], 3, false) := by decide
+example : ((GridS.run cfg0 (opsS.take 4)).g.cells.map (fun c => (c.coord, c.nbrs, c.border))) = [([0, 0], 2, true)] ∧
+    (GridS.run cfg0 (opsS.take 4)).pending.isNone = true := by decide
+example : (GridS.abandon cfg0 (GridS.run cfg0 (opsS.take 3)).g ⟨1, [0, 1], 7, 3, false, 0⟩).2 = false := by decide
+example : ((GridS.run cfg0 opsS).g.cells.map (fun c => (c.coord, c.nbrs, c.border))) =
+    [([0, 0], 3, false), ([0, 1], 3, false)] := by decide
+
+/-- **no stale key**: after every history -- split or fused, inside or outside the create…add window, every event,
+functor, bounds and limit -- the data of every cell of the grid is the update event's output for that cell's CURRENT
+neighbour counter and border flag (fed with some earlier data): `createCell`, `remove` (also of a never-added cell),
+`add`, `update`, `updateAll` never move a counter or a flag without re-running `eventCellUpdate_` on that cell.  (That
+the heaps then hold this data as the key, in heap order, is `gridB_split_inv` + `gridB_split_tops_best`.)  This is the
+oracle clause "data = event(last written, current count)" as a theorem; mutant MB2 (event skipped when the removed cell
+was never added) is its negation. -/
+theorem gridB_keys_fresh (cfg : Cfg) (ops : List GridS.Op) :
+    ∀ c ∈ (GridS.run cfg ops).g.cells, ∃ d0 h0, c.data = cfg.ev { c with data := d0, helem := h0 } :=
+  run_fresh cfg ops
+
+/-! non-vacuity: with an event that writes the counter into the data, the corner cell's data follows the counter through
+create (3) and remove-without-add (2); a cell whose data disagrees with its counter is not `Fresh`. -/
+def cfgE : Cfg := { cfg0 with ev := fun c => c.nbrs }
+example : ((GridS.run cfgE (opsS.take 2)).g.cells.map (fun c => (c.coord, c.nbrs, c.data))) = [([0, 0], 3, 3)] := by decide
+example : ((GridS.run cfgE (opsS.take 4)).g.cells.map (fun c => (c.coord, c.nbrs, c.data))) = [([0, 0], 2, 2)] := by decide
+example : ¬ Fresh cfgE { id := 0, coord := [0, 0], data := 5, nbrs := 2 } := by
+  rintro ⟨d0, h0, h⟩
+  simp [cfgE] at h
+
+end SplitGridB
 
 end OmplModel.Props.C13
